@@ -276,6 +276,10 @@ type Association struct {
 	myNextRSN        uint32
 	reconfigs        map[uint32]*chunkReconfig
 	reconfigRequests map[uint32]*paramOutgoingResetRequest
+	// Request sequence numbers of the peer's outgoing reset requests that have
+	// been performed (RFC 6525 Sec 5.2.2), to recognize retransmissions.
+	performedResetRSNs   map[uint32]struct{}
+	newestPerformedReset uint32
 
 	// Non-RFC internal data
 	sourcePort              uint16
@@ -3648,6 +3652,18 @@ func (a *Association) handleReconfigParam(raw param) (*packet, error) {
 	switch par := raw.(type) {
 	case *paramOutgoingResetRequest:
 		a.log.Tracef("[%s] handleReconfigParam (OutgoingResetRequest)", a.name)
+		if _, done := a.performedResetRSNs[par.reconfigRequestSequenceNumber]; done {
+			// RFC 6525 Sec 5.2.2: a retransmitted or duplicated request (our response
+			// was lost or delayed) is answered again, but must not be performed a
+			// second time: the stream identifier may have been re-opened meanwhile and
+			// resetting it again would discard the new stream's data.
+			return a.createPacket([]chunk{&chunkReconfig{
+				paramA: &paramReconfigResponse{
+					reconfigResponseSequenceNumber: par.reconfigRequestSequenceNumber,
+					result:                         reconfigResultSuccessPerformed,
+				},
+			}}), nil
+		}
 		if sna32LT(a.peerLastTSN(), par.senderLastTSN) && len(a.reconfigRequests) >= maxReconfigRequests {
 			// We have too many reconfig requests outstanding. Drop the request and let
 			// the peer retransmit. A well behaved peer should only have 1 outstanding
@@ -3733,6 +3749,7 @@ func (a *Association) resetStreamsIfAny(resetRequest *paramOutgoingResetRequest)
 			delete(a.streams, s.streamIdentifier)
 		}
 		delete(a.reconfigRequests, resetRequest.reconfigRequestSequenceNumber)
+		a.rememberPerformedReset(resetRequest.reconfigRequestSequenceNumber)
 	} else {
 		a.log.Debugf("[%s] resetStream(): senderLastTSN=%d > peerLastTSN=%d",
 			a.name, resetRequest.senderLastTSN, a.peerLastTSN())
@@ -3745,6 +3762,28 @@ func (a *Association) resetStreamsIfAny(resetRequest *paramOutgoingResetRequest)
 			result:                         result,
 		},
 	}})
+}
+
+// rememberPerformedReset records that the peer's reset request rsn was performed.
+// Only recent request sequence numbers can still be retransmitted, so old ones
+// are forgotten to keep the set small. The caller should hold the lock.
+func (a *Association) rememberPerformedReset(rsn uint32) {
+	const keep = 1024
+
+	if a.performedResetRSNs == nil {
+		a.performedResetRSNs = map[uint32]struct{}{}
+	}
+	if len(a.performedResetRSNs) == 0 || sna32LT(a.newestPerformedReset, rsn) {
+		a.newestPerformedReset = rsn
+	}
+	a.performedResetRSNs[rsn] = struct{}{}
+	if len(a.performedResetRSNs) > 2*keep {
+		for old := range a.performedResetRSNs {
+			if sna32LT(old, a.newestPerformedReset-keep) {
+				delete(a.performedResetRSNs, old)
+			}
+		}
+	}
 }
 
 // Move the chunk peeked with a.pendingQueue.peek() to the inflightQueue.
